@@ -186,6 +186,9 @@ func runC12(w *mon.W) {
 				if pos < 0 {
 					pos = 0
 				}
+				if pos >= m {
+					pos = m - 1
+				}
 				for {
 					c := alpha[r.Intn(len(alpha))]
 					if c != b[0] || len(alpha) == 1 {
